@@ -12,6 +12,7 @@ EXPLANATION = (
     "state reset (R-RESET), freshness and use of the per-call id, worker-side exception capture. "
     "These are necessary conditions visible in the shape of the code on every path; termination, timing "
     "and the behaviour of the pools themselves are NOT decided."
+    ' Every early return of the completion callback is a sanctioned one (stale call id / aborting / no retrieval callback); every attribute written while a call runs is re-initialised by a per-call prologue/epilogue.'
 )
 ASSUMPTIONS = [
     "CPython ast semantics; statement-level CFG with implicit exceptions modelled only inside try bodies",
